@@ -32,48 +32,28 @@ from gverif import tlc
 from gverif.common import SEED, die, ensure_repo
 from gverif.harness import Run
 
-NAMES2 = '{"f", "g"}'
-NAMES1 = '{"f"}'
-# (label, alphabet operator, MaxLen, MaxDepth, Names, TLC workers)
-DOMAINS = {
-    "quick": [
-        ("all", "AlphaAll", 2, 1, NAMES2, 2),
-        ("bind", "AlphaBind", 3, 2, NAMES2, 2),
-        ("cond", "AlphaCond", 4, 2, NAMES1, 2),
-        ("guard", "AlphaGuard", 3, 2, NAMES2, 2),
-        ("guard-deep", "AlphaGuardDeep", 4, 3, NAMES1, 3),
-        ("deco", "AlphaDeco", 3, 2, NAMES1, 2),
-        ("imp", "AlphaImp", 3, 2, NAMES2, 2),
-        ("attr", "AlphaAttr", 3, 2, NAMES2, 2),
-    ],
-    "thorough": [
-        ("all", "AlphaAll", 2, 1, NAMES2, 2),
-        ("deco", "AlphaDeco", 3, 2, NAMES2, 4),
-        ("guard-deep", "AlphaGuardDeep", 5, 3, NAMES1, 6),
-        ("cond", "AlphaCond", 5, 3, NAMES1, 4),
-        ("bind", "AlphaBind", 4, 3, NAMES2, 6),
-        ("guard", "AlphaGuard", 4, 3, NAMES2, 6),
-        ("imp", "AlphaImp", 4, 2, NAMES2, 6),
-        ("attr", "AlphaAttr", 4, 3, NAMES2, 6),
-    ],
+INVS = ["Total", "MembersFaithful", "RuntimeFaithful", "LabelsFaithful", "ImportsFaithful", "EvMembersLast", "EventsAccepted", "FlagDiscipline"]
+# invariant of Visitor.tla -> clause name used by the harness for the same demand
+CLAUSE_OF = {"Total": "total", "MembersFaithful": "members", "RuntimeFaithful": "runtime", "LabelsFaithful": "labels", "ImportsFaithful": "imports",
+             "EvMembersLast": "events-members-last", "EventsAccepted": "events-members-last", "FlagDiscipline": None}
+# one TLC process explores all domains of a tier (Visitor.tla: QuickDomains / ThoroughDomainsA / ThoroughDomainsB);
+# the machine-wide number of TLC processes is bounded (gverif.tlc slots), so the plan keeps it small
+PLAN = {
+    "quick": {"checks": [("QuickDomains", 8, "3g")], "strict": [INVS], "vis_defects": [], "coverage": False, "three_spellings": ("all",)},
+    "thorough": {"checks": [("ThoroughDomainsA", 10, "4g"), ("ThoroughDomainsB", 10, "4g")], "strict": [[i] for i in INVS],
+                 "vis_defects": ["PublicAsDocumented", "ExportedAsDocumented", "WildcardAsDocumented"], "coverage": True,
+                 "three_spellings": ("all", "deco", "attr3")},
 }
-# Strict = TRUE: the model must exhibit each known defect (invariant, alphabet, MaxLen, MaxDepth, Names, clause of the harness)
-DEFECTS = [
-    ("RuntimeFaithful", "AlphaGuardDeep", 4, 2, NAMES1, "runtime"),
-    ("FlagDiscipline", "AlphaGuardDeep", 4, 2, NAMES1, None),
-    ("Total", "AlphaSmoke", 3, 2, NAMES1, "total"),
-    ("MembersFaithful", "AlphaSmoke", 3, 2, NAMES1, "members"),
-    ("EvMembersLast", "AlphaSmoke", 3, 2, NAMES1, "events-members-last"),
-    ("LabelsFaithful", "AlphaSmoke", 3, 2, NAMES1, "labels"),
-    ("ImportsFaithful", "AlphaBind", 3, 2, NAMES1, "imports"),
-]
 ACTIONS = ["LeaveIf", "LeaveClass", "LeaveOther", "SkipLine", "VisitClassDef", "MakeProperty", "StashOverload", "AttachAccessor", "PlaceFunction",
-           "VisitImport", "HandleAttribute", "VisitAugAssign", "EnterIf", "EnterElse", "EnterExcept", "EnterBlock", "EndModule", "Crash", "AddLine", "VisitModule"]
+           "VisitImport", "HandleAttribute", "VisitAugAssign", "EnterIf", "EnterElse", "EnterExcept", "EnterBlock", "EndModule", "AddLine", "VisitModule"]
 
 
 # ---- worker side ------------------------------------------------------------------------------------------
 def _w_replay(chunk):
+    from gverif.harness import load_findings, matches
     from gverif.props import c01_replay as R
+
+    KNOWN = [e for e in load_findings("C01") if e.get("status") == "known"]
 
     out = []
     for case, variant, mode in chunk:
@@ -83,7 +63,9 @@ def _w_replay(chunk):
             import traceback
 
             res = {"violations": [], "drift": [], "machinery": f"harness crashed on {case['prog']} ({mode}, spelling {variant}): {exc!r}\n{traceback.format_exc()}", "nontrivial": False, "summary": None}
-        out.append((case["prog"], variant, mode, list(case["hz"]), res, case if res["violations"] else None))
+        res["wf"] = bool(case["wf"])
+        new = [sig for sig, _ in res["violations"] if not any(matches(e, sig) for e in KNOWN)]
+        out.append((case["prog"], variant, mode, list(case["hz"]), res, case if new else None))
     return out
 
 
@@ -113,8 +95,11 @@ def _absorb(run: Run, results, stats, domain):
             die("C01: " + res["machinery"])
         run.replayed()
         stats["replayed"] += 1
+        stats["replayed-well-formed"] += 1 if res.get("wf") else 0
+        stats["replayed-without-hazard"] += 1 if res.get("wf") and not hz else 0
         for h in hz:
             stats["hz:" + h] += 1
+        stats["pairs"].update((l[0], l[1]) for l in prog)
         if res["nontrivial"]:
             run.nontrivial_case(json.dumps(prog))
         if res["summary"] and len(prog) >= 3:
@@ -159,6 +144,7 @@ def main(tier: str, replay: str | None = None):
     from collections import Counter
 
     stats: Counter = Counter()
+    stats["pairs"] = set()
     ctx = mp.get_context("fork")
     nproc = max(4, min(12, (os.cpu_count() or 8) - 2))
 
@@ -171,26 +157,75 @@ def main(tier: str, replay: str | None = None):
         run.finish()
 
     t0 = time.time()
-    with ctx.Pool(nproc) as pool, ThreadPoolExecutor(max_workers=6 if tier == "quick" else 3) as tpool:
+    from gverif.common import scratch
+
+    plan = PLAN[tier]
+    only = os.environ.get("C01_ONLY", "")            # development aid: C01_ONLY=small restricts the run to the defect domains
+    if only:
+        plan = dict(plan, checks=[("DefectDomains", 4, "2g")])
+    with scratch("c01-main-") as tmpdir, ctx.Pool(nproc) as pool, ThreadPoolExecutor(max_workers=4 if tier == "quick" else 2) as tpool:
         # -- code -> spec: event traces of real files (does not depend on TLC: start at once) ---------------------
         files = corpus_files(tier)
-        corpus_async = [pool.apply_async(_w_corpus, (ch,)) for ch in _chunks(files, 8)]
-        # -- TLC jobs ------------------------------------------------------------------------------------------------
+        corpus_async = [pool.apply_async(_w_corpus, (ch,)) for ch in _chunks(files, 6)]
+        # -- spec -> code: TLC enumerates, every printed program goes to the worker pool as soon as it is parsed ----
+        pending = []
+        seen = set()
+        buf = []
+        lock = __import__("threading").Lock()
+
+        def flush():
+            if buf:
+                pending.append(pool.apply_async(_w_replay, (list(buf),)))
+                buf.clear()
+
+        def on_case(case):
+            with lock:
+                key = json.dumps(case["prog"])
+                stats["cases:" + case["dom"]] += 1
+                if key in seen:
+                    stats["duplicates-across-domains"] += 1
+                else:
+                    seen.add(key)
+                    i = len(seen)
+                    variants = (0, 1, 2) if case["dom"] in plan["three_spellings"] else ((i + len(case["prog"])) % 3,)
+                    c = dict(case)
+                    for v in variants:
+                        buf.append((c, v, "visit"))
+                    if i % 7 == 0:
+                        buf.append((c, (i // 7) % 3, "load"))
+                    if len(buf) >= 200:
+                        flush()
+                case.clear()      # tlc.run keeps every record: drop the payload, the pool has its copy
+
         jobs = {}
-        only = set(filter(None, os.environ.get("C01_ONLY", "").split(",")))      # development aid: restrict the domains
-        for label, alpha, L, D, names, w in DOMAINS[tier]:
-            if only and label not in only:
-                continue
-            consts = dict(LEN=L, DEPTH=D, NAMES=names, ALPHA=alpha, EMIT="TRUE")
-            jobs[tpool.submit(tlc.run, "Visitor", "Visitor_check.cfg", workers=w, constants=consts, timeout=3000, heap="2g" if tier == "quick" else "5g",
-                              coverage=(label == "all"))] = ("check", label, consts)
-        for inv, alpha, L, D, names, clause in DEFECTS:
-            consts = dict(LEN=L, DEPTH=D, NAMES=names, ALPHA=alpha, INV=inv)
-            jobs[tpool.submit(tlc.run, "Visitor", "Visitor_defect.cfg", workers=1, constants=consts, timeout=600, heap="1g", dump_trace=True)] = ("defect", inv, clause)
+        for domains, workers, heap in plan["checks"][:1]:
+            jobs[tpool.submit(tlc.run, "Visitor", "Visitor_domains.cfg", workers=workers, constants={"DOMAINS": domains}, timeout=6000, heap=heap, on_line=on_case)] = ("check", domains, None)
+        for invs in plan["strict"]:
+            jobs[tpool.submit(tlc.run, "Visitor", "Visitor_defect.cfg", workers=1, constants={"INVS": "\n".join("INVARIANT " + i for i in invs)}, timeout=900, heap="1g", dump_trace=True)] = ("strict", "+".join(invs), invs)
+        if plan["coverage"]:
+            jobs[tpool.submit(tlc.run, "Visitor", "Visitor_check.cfg", workers=2, constants=dict(LEN=2, DEPTH=1, NAMES='{"f", "g"}', ALPHA="AlphaAll", EMIT="FALSE"), timeout=900, heap="1g", coverage=True)] = ("coverage", "all", None)
         jobs[tpool.submit(tlc.run, "Visibility", "Visibility_check.cfg", workers=1, timeout=600, heap="1g")] = ("vis", "check", None)
-        for inv in ("PublicAsDocumented", "ExportedAsDocumented", "WildcardAsDocumented"):
+        for inv in plan["vis_defects"]:
             jobs[tpool.submit(tlc.run, "Visibility", "Visibility_defect.cfg", workers=1, constants={"INV": inv}, timeout=600, heap="1g", dump_trace=True)] = ("visdefect", inv, None)
-        pending = []      # (domain, async result)
+        # -- recorded traces -> TLC (VisitorTrace.tla accepts or rejects each one with the acceptor shared with Visitor.tla) --
+        corpus_results = [x for a in corpus_async for x in a.get()]
+        print(f"  [{time.time() - t0:5.1f}s] corpus sweep done ({len(corpus_results)} files)", flush=True)
+        budget = 15000 if tier == "quick" else 600000
+        sampled = []
+        for res in sorted((r for r in corpus_results if r["status"] == "visited" and r["events"] >= 3), key=lambda r: (r["events"] > 600, r["path"])):
+            if budget - res["events"] < 0:
+                continue
+            budget -= res["events"]
+            sampled.append(res)
+        trace_file = os.path.join(tmpdir, "traces.ndjson")
+        with open(trace_file, "w") as fh:
+            for res in sampled:
+                fh.write(json.dumps({"id": res["path"], "ev": [{"e": e, "o": o, "p": p, "c": c} for e, o, p, c in res["trace"]]}) + "\n")
+        for res in corpus_results:
+            res.pop("trace", None)
+        jobs[tpool.submit(tlc.run, "VisitorTrace", "VisitorTrace.cfg", workers=1, timeout=3000, heap="2g", env={"C01_TRACES": trace_file})] = ("trace", "corpus", sampled)
+        for domains, workers, heap in plan["checks"][1:]:      # the other big enumeration(s) last: at most two TLC processes at a time in the thorough tier
+            jobs[tpool.submit(tlc.run, "Visitor", "Visitor_domains.cfg", workers=workers, constants={"DOMAINS": domains}, timeout=6000, heap=heap, on_line=on_case)] = ("check", domains, None)
         rows_async = []
         defect_cases = []
         for fut in as_completed(jobs):
@@ -202,39 +237,45 @@ def main(tier: str, replay: str | None = None):
                 run.add_tlc(res)
                 if res.violated:
                     print(res.tail)
-                    die(f"C01: Visitor.tla violates {res.violated} on programs without the named hazards (domain {label}): the model or the reference is wrong")
+                    die(f"C01: Visitor.tla violates {res.violated} on programs without the named hazards ({label}): the model or the reference is wrong")
                 if not res.cases:
-                    die(f"C01: domain {label} produced no case")
-                if label == "all":
-                    dead = [a for a in ACTIONS if res.coverage.get(a, (0, 0))[1] == 0 and a in res.coverage and a != "Crash"]  # Crash needs 3 lines: see DEFECTS/Total
-                    missing = [a for a in ACTIONS if a not in res.coverage]
-                    if dead or (missing and res.coverage):
-                        die(f"C01: vacuous model: actions never taken {dead}, not reported by coverage {missing}")
-                stats["cases:" + label] = len(res.cases)
-                work = []
-                for i, case in enumerate(res.cases):
-                    variants = (0, 1, 2) if tier == "thorough" and label in ("all", "deco", "imp", "attr") else ((i + len(case["prog"])) % 3,)
-                    for v in variants:
-                        work.append((case, v, "visit"))
-                    if i % 7 == 0:
-                        work.append((case, (i // 7) % 3, "load"))
+                    die(f"C01: {label} produced no case")
+                with lock:
+                    flush()
                 res.cases = []
-                for ch in _chunks(work, 150):
-                    pending.append((label, pool.apply_async(_w_replay, (ch,))))
-                del work
-            elif kind == "defect":
+            elif kind == "coverage":
+                tlc.must(res)
+                run.add_tlc(res)
+                dead = [a for a in ACTIONS if res.coverage.get(a, (0, 0))[1] == 0]
+                if dead:
+                    die(f"C01: vacuous model: actions never taken in the union alphabet {dead}")
+            elif kind == "strict":
                 tlc.must(res, allow_violations=True)
                 run.add_tlc(res)
-                if label not in res.violated or not res.trace:
-                    die(f"C01: with Strict = TRUE the model no longer exhibits the known defect behind {label} (violated: {res.violated})")
-                defect_cases.append((label, extra, _case_from_state(res.trace[-1])))
+                if not res.violated or not res.trace:
+                    die(f"C01: with Strict = TRUE the model no longer exhibits any of the known defects behind {label} (violated: {res.violated})")
+                defect_cases.append((res.violated[0], CLAUSE_OF.get(res.violated[0]), _case_from_state(res.trace[-1])))
             elif kind == "vis":
                 tlc.must(res)
                 run.add_tlc(res)
                 if len(res.cases) < 1000:
                     die(f"C01: Visibility.tla enumerated only {len(res.cases)} rows")
+                for h, pred in (("empty-all", "public"), ("no-parent", "exported"), ("no-parent", "wildcard")):
+                    if not any(h in row["hz"] and row["impl"][pred] != row["doc"][pred] for row in res.cases):
+                        die(f"C01: Visibility.tla no longer exhibits the known deviation {h} of is_{pred}")
                 for ch in _chunks(res.cases, 200):
                     rows_async.append(pool.apply_async(_w_rows, (ch,)))
+            elif kind == "trace":
+                tlc.must(res)
+                run.add_tlc(res)
+                verdicts = {c["id"]: c for c in res.cases}
+                if len(verdicts) != len(extra):
+                    die(f"C01: VisitorTrace.tla gave {len(verdicts)} verdicts for {len(extra)} recorded traces")
+                for r_ in extra:
+                    v = verdicts[r_["path"]]["verdict"]
+                    stats["traces-by-tlc:" + ("accepted" if v == "ok" else v)] += 1
+                    if (v == "ok") != (not r_["protocol"]) or (v != "ok" and v not in r_["protocol"]):
+                        die(f"C01: the acceptor of EventProtocol.tla says {v!r} on the trace of {r_['path']}, the harness's protocol check says {r_['protocol']}")
             else:
                 tlc.must(res, allow_violations=True)
                 run.add_tlc(res)
@@ -242,8 +283,8 @@ def main(tier: str, replay: str | None = None):
                     die(f"C01: with Strict = TRUE Visibility.tla no longer exhibits the known deviation behind {label}")
         # -- collect ---------------------------------------------------------------------------------------------------
         print(f"  [{time.time() - t0:5.1f}s] all TLC jobs done, {len(pending)} replay chunks submitted", flush=True)
-        for label, a in pending:
-            _absorb(run, a.get(), stats, label)
+        for a in pending:
+            _absorb(run, a.get(), stats, "domains")
         print(f"  [{time.time() - t0:5.1f}s] replay done", flush=True)
         # model-predicted defects: TLC's counterexamples, replayed on the real code
         from gverif.props import c01_replay as R
@@ -254,17 +295,21 @@ def main(tier: str, replay: str | None = None):
                 res = R.replay_case(case, variant, "visit")
                 if res["machinery"]:
                     die("C01 (counterexample replay): " + res["machinery"])
-                _absorb(run, [(case["prog"], variant, "visit", case["hz"], res, case)], stats, "defect:" + inv)
+                _absorb(run, [(case["prog"], variant, "visit", case["hz"], res, case)], stats, "strict:" + inv)
                 hit = hit or any(sig["clause"] == clause for sig, _ in res["violations"])
+            stats["strict-counterexamples"] += 1
             if clause and not hit:
                 run.note(f"model drift: Visitor.tla (Strict) predicts a violation of {inv} on {case['prog']}, the real code does not show it (fixed in the working tree?)")
         _absorb_rows(run, [x for a in rows_async for x in a.get()], stats)
-        _absorb_corpus(run, [x for a in corpus_async for x in a.get()], stats, len(files))
+        _absorb_corpus(run, corpus_results, stats, len(files))
         print(f"  [{time.time() - t0:5.1f}s] rows and corpus done", flush=True)
     run.exhaustive = True
+    # vacuity on the binding side: every statement form, every hazard class and the crash path were reached by replayed programs
+    if len(stats["pairs"]) < (12 if only else 43):
+        die(f"C01: the replayed programs use only {len(stats['pairs'])} statement forms: vacuous")
+    stats["pairs"] = len(stats["pairs"])
     run.extra["c01"] = {k: v for k, v in sorted(stats.items())}
-    # vacuity on the binding side: every hazard class and the crash path were reached by replayed programs
-    for need in () if os.environ.get("C01_ONLY") else ("hz:guard-reset", "hz:guard-else", "hz:guard-nested", "hz:init-local", "hz:init-overload", "hz:label-inherit"):
+    for need in ("hz:guard-reset", "hz:guard-else", "hz:guard-nested", "hz:init-local", "hz:init-overload", "hz:label-inherit"):
         if not stats[need]:
             die(f"C01: no replayed program with {need}: vacuous")
     print("C01 stats:", json.dumps(run.extra["c01"]))
